@@ -177,3 +177,7 @@ Theorem reverse_latin1_all : forall c bs, (1 <= bs)%nat ->
 Proof.
   intros c bs Hbs. unfold reverse_iter_lines. rewrite reverse_bytes_all by exact Hbs. rewrite firstn_all. reflexivity.
 Qed.
+
+(* `encoding or file_obj.encoding`: the caller's encoding wins over the handle's own *)
+Lemma pick_encoding_caller_wins : forall arg own : option fmode, pick_encoding arg own = caller_wins arg own.
+Proof. intros [a|] [o|]; reflexivity. Qed.
